@@ -201,6 +201,7 @@ def run(ctx):
         ('mergesort', 2, lambda a, b: etl.mergesort(a, b, key='x')), ('mergesort(reverse)', 2, lambda a, b: etl.mergesort(a, b, key='x', reverse=True)),
         ('issorted', 1, lambda t: [[etl.issorted(t, 'x'), etl.issorted(t, 'x', strict=True), etl.issorted(t, 'x', reverse=True, strict=True)]]),
     ], 240 if ctx.thorough() else 60)
+    util.exotic_key_cases(etl, rng, ctx, 'C05', 200 if ctx.thorough() else 50)
 
 def replay(d):
     print('replay case:', d.get('case'))
